@@ -10,6 +10,7 @@ from collections import Counter
 
 PKG = "network/dag"
 HARNESS = ["network/dag/zz_verif_c14_test.go"]
+HARNESSES = [(PKG, HARNESS, "c14"), ("network/transport/v2", ["network/transport/v2/zz_verif_c14_test.go"], "c14h")]
 ROOT = os.path.dirname(os.path.dirname(os.path.abspath(__file__)))
 
 REQUIRED = ["no_loss", "admitted_by_commit", "only_admitted_delivered", "not_admitted_unchanged", "no_call_after_done",
@@ -254,6 +255,11 @@ def run(ctx):
             ctx.violation(sig, text + f" [history {h.reset.get('hist')} kind {h.reset.get('kind')}]", name, "\n".join(replay) + "\n")
     ctx.oblige("oracle:no-loss/no-call-after-done/only-admitted/at-least-once/failed-visible(impl)", n_viol == 0, f"{n_viol} violations")
 
+    # ---- handler level: the real protocol-v2 handleTransactionPayload on a real state (ties the dag-level re-enactment
+    #      of its three steps to the handler; replays the second-payload witness, also across a restart)
+    if not ctx.replay:
+        handler_oracle(ctx)
+
     # ---- real sleeping of the retry loop: never shorter than retryDelay * 2^(1+k) (capped), i.e. growing
     n_timing = 0
     for raw in ops[:40]:
@@ -320,6 +326,42 @@ def run(ctx):
                        "with at least one stop and one delivery")
     ctx.cov["input_distribution"] = {"histories": len(hs), "history_kinds": dict(kinds), "ops": dict(opc), "receiver_outcomes": dict(outc), "stops": dict(stops)}
     ctx.cov["samples"] = [ops[2][:300] if len(ops) > 2 else "", impl[2][:300] if len(impl) > 2 else ""]
+
+
+def handler_oracle(ctx):
+    pkg, files, name = HARNESSES[1]
+    hb = ctx.go_test_binary(pkg, files, name)
+    if hb is None:
+        ctx.oblige("handler-harness-builds", False, ctx.harness_error[-1200:])
+        return
+    d = os.path.join(ctx.scratch, "outh")
+    rc, log, out = ctx.run_harness(hb, "TestVerifC14Handler", {}, outdir=d, timeout=300)
+    if rc != 0:
+        ctx.oblige("handler-harness-runs", False, "\n".join(l for l in log.split("\n") if "level=audit" not in l)[-1200:])
+        return
+    rows = {}
+    for l in ctx.read_lines(os.path.join(out, "handler.out")):
+        m = re.match(r"(\S+) err=(.*) calls=\[(.*)\] privateJobs=(\d+) vcsJobs=(\d+)$", l)
+        if m:
+            rows[m.group(1)] = dict(err=m.group(2), calls=[c for c in m.group(3).split(" ") if c], private=int(m.group(4)), vcs=int(m.group(5)))
+    need = ["add-private", "payload-unknown-tx", "payload-mismatch", "payload-1", "payload-2", "restart", "payload-3"]
+    if any(k not in rows for k in need):
+        ctx.oblige("handler-harness-runs", False, f"missing rows: {[k for k in need if k not in rows]}")
+        return
+    ok_not_admitted = rows["payload-unknown-tx"]["err"] != "nil" and not rows["payload-unknown-tx"]["calls"] and \
+        rows["payload-mismatch"]["err"] != "nil" and not rows["payload-mismatch"]["calls"] and rows["add-private"]["private"] == 1
+    ctx.oblige("oracle:handler:payload-for-unknown-tx-or-wrong-hash-not-delivered", ok_not_admitted, str(rows["payload-unknown-tx"]))
+    first = rows["payload-1"]
+    ok_first = first["calls"] == ["payload:0"] and first["private"] == 0 and first["vcs"] == 0
+    ctx.oblige("oracle:handler:payload-delivered-once-and-private-job-finished", ok_first, str(first))
+    again = [k for k in ("payload-2", "restart", "payload-3") if rows[k]["calls"] != first["calls"]]
+    ctx.oblige("oracle:handler:no-call-after-completion", not again, f"subscriber called again at {again}: {[rows[k]['calls'] for k in again]}")
+    if again:
+        wit = os.path.join(ROOT, "harness", "corpus", "C14", "second-writepayload-after-done.jsonl")
+        ctx.violation("C14:call-after-completion:second-WritePayload-recreates-finished-job",
+                      f"real handleTransactionPayload: vcr_vcs called again after completion at {again} (calls {rows[again[0]]['calls']})",
+                      "handler-second-payload.jsonl", open(wit).read() if os.path.exists(wit) else "see harness/inpkg/network/transport/v2/zz_verif_c14_test.go")
+    ctx.cov["handler_level_steps"] = len(rows)
 
 
 def shrink(ctx, binary, h, upto, sig, threshold):
